@@ -14,6 +14,20 @@
 //! open message (label, provenance of sigma, slot, indexes, won_indexes field), the buffer, the
 //! signers of the certificate.  Compared with `C16.Model.run`.
 //!
+//! Dimensions added by the audit (all of them visible to the model):
+//!   * key rotation: a registration is (set of parties, key generation); the same party holds a
+//!     different STM key in registrations of different generations (real signers make a new key
+//!     for every epoch), and some worlds have a party that is only in the NEXT registration;
+//!   * epoch change: a world lives through several epochs (chain of registrations); the first case
+//!     of a new epoch runs its pre-open events (buffered submissions) one epoch EARLY, then the
+//!     real epoch transition (state machine: inform_epoch, open messages cleaned, multi-signers
+//!     rebuilt), then Open / hand-over / the rest (model: `run2`);
+//!   * a second open message of another signed entity type (CardanoTransactions, id 1007)
+//!     interleaved with the first one, with cross-entity submissions; the buffer is keyed by type;
+//!   * DMQ batches of several (signature, entity) pairs, honest and adversarial mixed;
+//!   * index-list families on a genuine sigma: duplicated index, reversed list, index = m,
+//!     index = u64::MAX, next to reduced / empty / extra-losing lists.
+//!
 //! `holds` is judged from the harness's own provenance table (which key made which sigma for
 //! which message / registration), never from the model.
 use std::collections::{BTreeMap, BTreeSet, HashMap};
@@ -29,12 +43,15 @@ use mithril_aggregator::services::{
     SignatureProcessor, SignatureRegistrationStatus,
 };
 use mithril_aggregator::{verif, ServeCommandConfiguration};
-use mithril_common::crypto_helper::ProtocolSingleSignature;
+use mithril_common::crypto_helper::{KesPeriod, KesSigner, KesSignerStandard, ProtocolInitializer, ProtocolSingleSignature};
 use mithril_common::entities::{
     BlockNumber, CardanoDbBeacon, ChainPoint, Epoch, ProtocolMessage, ProtocolParameters, SignedEntityType,
     SignedEntityTypeDiscriminants as D, SingleSignature, SingleSignatureAuthenticationStatus, SlotNumber,
-    StakeDistribution, TimePoint,
+    SignerWithStake, StakeDistribution, TimePoint,
 };
+use mithril_common::protocol::{SignerBuilder, SingleSigner};
+use rand_chacha::ChaCha20Rng;
+use rand_core::SeedableRng;
 use mithril_common::messages::{RegisterSignatureMessageHttp, SignedEntityTypeMessage};
 use mithril_common::protocol::ToMessage;
 use mithril_common::test::builder::{MithrilFixture, MithrilFixtureBuilder, StakeDistributionGenerationMethod};
@@ -46,18 +63,35 @@ const NP: usize = 6; // parties 0..4 may register, party 5 never does (outsider 
 const M: u64 = 20;
 const PHI_F: f64 = 0.65;
 const STAKES: [u64; NP] = [10, 10, 14, 8, 12, 9]; // parties 0 and 1 have equal stake
-const ENT: u64 = 7; // model id of the case's entity
-const MSG: u64 = 70; // model id of its protocol message
+const ENT: u64 = 7; // model id of the case's entity (type 0 = id / 1000: CardanoDatabase)
+const ENT2: u64 = 1007; // a second entity of another signed entity type (type 1: CardanoTransactions)
+const MSG: u64 = 70; // model id of ENT's protocol message
 const MSG_OTHER: u64 = 71; // another message (replays)
+const MSG2: u64 = 80; // model id of ENT2's protocol message
+fn msg_of(ent: u64) -> u64 {
+    if ent == ENT2 { MSG2 } else { MSG }
+}
+
+/// a registration: (sorted set of parties, key generation)
+type Reg = (Vec<usize>, u8);
+fn vk_id(p: usize, gen: u8) -> u64 {
+    10 + p as u64 + 100 * gen as u64
+}
 
 // ------------------------------------------------------------------ fixtures
+
+struct RegFx {
+    signers: Vec<SignerWithStake>,
+    single: HashMap<usize, SingleSigner>,
+}
 
 struct Fx {
     params: ProtocolParameters,
     ids: Vec<String>,
-    subs: HashMap<Vec<usize>, MithrilFixture>,
-    /// registration set -> parties in slot order
-    slots: HashMap<Vec<usize>, Vec<usize>>,
+    base: MithrilFixture,
+    subs: HashMap<Reg, RegFx>,
+    /// registration -> parties in slot order
+    slots: HashMap<Reg, Vec<usize>>,
 }
 
 impl Fx {
@@ -65,29 +99,64 @@ impl Fx {
         let params = ProtocolParameters { k, m: M, phi_f: PHI_F };
         let base = MithrilFixtureBuilder::default().with_signers(NP).with_protocol_parameters(params.clone()).build();
         let ids: Vec<String> = base.signers_with_stake().iter().map(|s| s.party_id.clone()).collect();
-        Fx { params, ids, subs: HashMap::new(), slots: HashMap::new() }
+        Fx { params, ids, base, subs: HashMap::new(), slots: HashMap::new() }
     }
-    fn sub(&mut self, set: &[usize]) -> &MithrilFixture {
-        if !self.subs.contains_key(set) {
-            let sd: StakeDistribution =
-                set.iter().map(|i| (self.ids[*i].clone(), STAKES[*i])).collect::<BTreeMap<_, _>>().into_iter().collect();
-            let fx = MithrilFixtureBuilder::default()
-                .with_protocol_parameters(self.params.clone())
-                .with_stake_distribution(StakeDistributionGenerationMethod::Custom(sd))
-                .build();
-            self.subs.insert(set.to_vec(), fx);
+    /// the repository's own fixture (generation-0 keys): genesis certificate, initial stores, stake distribution
+    fn fixture0(&self, set: &[usize]) -> MithrilFixture {
+        let sd: StakeDistribution =
+            set.iter().map(|i| (self.ids[*i].clone(), STAKES[*i])).collect::<BTreeMap<_, _>>().into_iter().collect();
+        MithrilFixtureBuilder::default()
+            .with_protocol_parameters(self.params.clone())
+            .with_stake_distribution(StakeDistributionGenerationMethod::Custom(sd))
+            .build()
+    }
+    /// signers of a registration: same party id / operational certificate / KES key as the fixture,
+    /// STM key drawn from a seed that depends on the key generation (generation 0 = the fixture's key)
+    fn sub(&mut self, reg: &Reg) -> &RegFx {
+        if !self.subs.contains_key(reg) {
+            let (set, gen) = reg;
+            let base_sf = self.base.signers_fixture();
+            let mut signers = vec![];
+            let mut inits = vec![];
+            for p in set {
+                let pid = &self.ids[*p];
+                let bsf = base_sf.iter().find(|s| &s.signer_with_stake.party_id == pid).unwrap();
+                let kes_signer = bsf.kes_secret_key_path.clone().map(|kp| {
+                    Arc::new(KesSignerStandard::new(kp, bsf.operational_certificate_path.clone().unwrap())) as Arc<dyn KesSigner>
+                });
+                let kes_period = kes_signer.as_ref().map(|_| KesPeriod(0));
+                let mut seed: [u8; 32] = format!("{pid:<032}").as_bytes()[..32].try_into().unwrap();
+                if *gen > 0 {
+                    seed[31] ^= *gen;
+                    seed[7] = seed[7].wrapping_add(gen.wrapping_mul(37));
+                }
+                let pi = ProtocolInitializer::setup(self.params.clone().into(), kes_signer, kes_period, STAKES[*p], &mut ChaCha20Rng::from_seed(seed))
+                    .expect("protocol initializer");
+                let mut sws = bsf.signer_with_stake.clone();
+                sws.stake = STAKES[*p];
+                sws.verification_key_for_concatenation = pi.verification_key_for_concatenation().into();
+                sws.verification_key_signature_for_concatenation = pi.verification_key_signature_for_concatenation();
+                signers.push(sws);
+                inits.push((*p, pi));
+            }
+            let builder = SignerBuilder::new(&signers, &self.params).expect("signer builder");
+            let single: HashMap<usize, SingleSigner> = inits
+                .into_iter()
+                .map(|(p, pi)| (p, builder.restore_signer_from_initializer(self.ids[p].clone(), pi).expect("restore signer")))
+                .collect();
+            self.subs.insert(reg.clone(), RegFx { signers, single });
         }
-        &self.subs[set]
+        &self.subs[reg]
     }
-    fn sign(&mut self, party: usize, set: &[usize], msg: &ProtocolMessage) -> Option<SingleSignature> {
-        let pid = self.ids[party].clone();
-        self.sub(set).signers_fixture().iter().find(|s| s.signer_with_stake.party_id == pid).and_then(|s| s.sign(msg))
+    fn sign(&mut self, party: usize, reg: &Reg, msg: &ProtocolMessage) -> Option<SingleSignature> {
+        self.sub(reg).single.get(&party).and_then(|s| s.sign(msg).unwrap())
     }
     /// slot order of a registration, learnt from the signer_index of honest signatures on probe messages
-    fn slot_order(&mut self, set: &[usize]) -> Vec<usize> {
-        if let Some(v) = self.slots.get(set) {
+    fn slot_order(&mut self, reg: &Reg) -> Vec<usize> {
+        if let Some(v) = self.slots.get(reg) {
             return v.clone();
         }
+        let set = reg.0.clone();
         let mut by_party: BTreeMap<usize, u64> = BTreeMap::new();
         for probe in 0..400u64 {
             if by_party.len() == set.len() {
@@ -95,9 +164,9 @@ impl Fx {
             }
             let mut pm = ProtocolMessage::new();
             pm.set_message_part(mithril_common::entities::ProtocolMessagePartKey::SnapshotDigest, format!("probe-{}", probe));
-            for p in set {
+            for p in &set {
                 if !by_party.contains_key(p) {
-                    if let Some(s) = self.sign(*p, set, &pm) {
+                    if let Some(s) = self.sign(*p, reg, &pm) {
                         by_party.insert(*p, parts(&s).1);
                     }
                 }
@@ -108,7 +177,7 @@ impl Fx {
         v.sort();
         let order: Vec<usize> = v.iter().map(|x| x.1).collect();
         assert!(v.iter().enumerate().all(|(i, x)| x.0 == i as u64), "slots are not 0..n");
-        self.slots.insert(set.to_vec(), order.clone());
+        self.slots.insert(reg.clone(), order.clone());
         order
     }
 }
@@ -176,10 +245,10 @@ fn lab_of(ids: &[String], s: &str) -> u64 {
     }
 }
 
-/// who made a sigma: key of `party` on message `msg` for registration `set`; or junk
-#[derive(Clone, PartialEq, Eq, Debug)]
+/// who made a sigma: key of `party` (generation of `reg`) on message `msg` for registration `reg`; or junk
+#[derive(Clone, PartialEq, Eq, Debug, Hash)]
 enum Prov {
-    Made { party: usize, msg: u64, set: Vec<usize> },
+    Made { party: usize, msg: u64, reg: Reg },
     Junk(u64),
 }
 
@@ -207,48 +276,53 @@ enum Path {
 
 #[derive(Clone, Debug)]
 enum Ev {
-    Sub { path: Path, claimed: u64, sg: Sg },
-    Open,
-    Seal,
+    Sub { path: Path, ent: u64, claimed: u64, sg: Sg },
+    Batch(Vec<(u64, Sg)>),
+    Open(u64),
+    Seal(u64),
 }
 
+/// the registrations in force for a (segment of a) case
+#[derive(Clone, Debug)]
 struct Regs {
-    cur: Vec<usize>,      // slot order
-    nxt: Vec<usize>,      // slot order
-    cur_set: Vec<usize>,  // sorted
-    nxt_set: Vec<usize>,  // sorted
+    cur: Vec<usize>, // slot order
+    nxt: Vec<usize>, // slot order
+    cur_reg: Reg,
+    nxt_reg: Reg,
+    /// the registration that was current one epoch earlier (None in the first epoch of a world)
+    prev_reg: Option<Reg>,
 }
 
-fn coq_reg(order: &[usize]) -> String {
+fn coq_reg(order: &[usize], gen: u8) -> String {
     coq::list(
         &order
             .iter()
-            .map(|p| format!("{{| p_label := {}; p_vk := {}; p_stake := {} |}}", coq::n(*p as u64), coq::n(10 + *p as u64), coq::n(STAKES[*p])))
+            .map(|p| format!("{{| p_label := {}; p_vk := {}; p_stake := {} |}}", coq::n(*p as u64), coq::n(vk_id(*p, gen)), coq::n(STAKES[*p])))
             .collect::<Vec<_>>(),
     )
 }
 
-impl Sg {
-    fn coq_sigma(&self, fx: &mut Fx, regs: &Regs) -> String {
-        match &self.prov {
-            Prov::Junk(n) => format!("(Junk {})", coq::n(*n)),
-            Prov::Made { party, msg, set } => {
-                let r = if *set == regs.cur_set {
-                    "cur".to_string()
-                } else if *set == regs.nxt_set {
-                    "nxt".to_string()
-                } else {
-                    coq_reg(&fx.slot_order(set))
-                };
-                format!("(SigOf {} (payload {} {}))", coq::n(10 + *party as u64), r, coq::n(*msg))
-            }
-        }
+/// Coq names bound by the case term for the registrations of the world (`r0`, `r1`, ...)
+type Names = Vec<(Reg, String)>;
+fn reg_term(fx: &mut Fx, names: &Names, reg: &Reg) -> String {
+    match names.iter().find(|(r, _)| r == reg) {
+        Some((_, n)) => n.clone(),
+        None => coq_reg(&fx.slot_order(reg), reg.1),
     }
-    fn coq(&self, fx: &mut Fx, regs: &Regs) -> String {
+}
+fn coq_prov(fx: &mut Fx, names: &Names, prov: &Prov) -> String {
+    match prov {
+        Prov::Junk(n) => format!("(Junk {})", coq::n(*n)),
+        Prov::Made { party, msg, reg } => format!("(SigOf {} (payload {} {}))", coq::n(vk_id(*party, reg.1)), reg_term(fx, names, reg), coq::n(*msg)),
+    }
+}
+
+impl Sg {
+    fn coq(&self, fx: &mut Fx, names: &Names) -> String {
         format!(
             "{{| s_label := {}; s_sigma := {}; s_slot := {}; s_idxs := {}; s_won := {} |}}",
             coq::n(self.label.code()),
-            self.coq_sigma(fx, regs),
+            coq_prov(fx, names, &self.prov),
             coq::n(self.slot),
             coq::list_n(&self.idxs),
             coq::list_n(&self.won)
@@ -260,12 +334,37 @@ impl Sg {
     }
 }
 
+fn coq_events(fx: &mut Fx, names: &Names, evs: &[Ev]) -> Vec<String> {
+    evs.iter()
+        .map(|e| match e {
+            Ev::Open(ent) => format!("Open {} {}", coq::n(*ent), coq::n(msg_of(*ent))),
+            Ev::Seal(ent) => format!("Seal {}", coq::n(*ent)),
+            Ev::Batch(items) => format!(
+                "Batch {}",
+                coq::list(&items.iter().map(|(ent, sg)| format!("({}, {})", coq::n(*ent), sg.coq(fx, names))).collect::<Vec<_>>())
+            ),
+            Ev::Sub { path, ent, claimed, sg } => format!(
+                "Sub {} {} {} {}",
+                match path {
+                    Path::Http => "Http",
+                    Path::Direct => "Direct",
+                    Path::Dmq => "Dmq",
+                },
+                coq::n(*ent),
+                coq::n(*claimed),
+                sg.coq(fx, names)
+            ),
+        })
+        .collect()
+}
+
 // ------------------------------------------------------------------ world
 
 struct World {
     tester: RuntimeTester,
     buf_repo: BufferedSingleSignatureRepository,
-    regs: Regs,
+    /// chain[i] is recorded for epoch i + 1: CURRENT at epoch i + 2, NEXT at epoch i + 1
+    chain: Vec<Reg>,
     epoch: u64,
     next_imm: u64,
 }
@@ -282,7 +381,8 @@ impl SignatureConsumer for OneBatch {
 }
 
 impl World {
-    async fn new(fx: &mut Fx, g: Vec<usize>, s: Vec<usize>, dir: PathBuf) -> World {
+    async fn new(fx: &mut Fx, chain: Vec<Reg>, dir: PathBuf) -> World {
+        assert_eq!(chain[0].1, 0, "the first registration uses the fixture keys");
         let _ = std::fs::remove_dir_all(&dir);
         std::fs::create_dir_all(&dir).unwrap();
         let cfg = ServeCommandConfiguration {
@@ -305,41 +405,120 @@ impl World {
             cfg,
         )
         .await;
-        let gfix = fx.sub(&g).clone();
+        let gfix = fx.fixture0(&chain[0].0);
+        assert_eq!(
+            gfix.signers_with_stake().iter().map(|s| s.verification_key_for_concatenation.to_json_hex().unwrap()).collect::<BTreeSet<_>>(),
+            fx.sub(&chain[0]).signers.iter().map(|s| s.verification_key_for_concatenation.to_json_hex().unwrap()).collect::<BTreeSet<_>>(),
+            "generation-0 keys are the fixture keys"
+        );
         tester.init_state_from_fixture(&gfix).await.unwrap();
         tester.register_genesis_certificate(&gfix).await.unwrap();
+        // every party 0..5 holds stake on the chain: anybody may register for a coming epoch
+        let all: Vec<usize> = (0..NP).collect();
+        tester.chain_observer.set_signers(fx.fixture0(&all).signers_with_stake()).await;
         // epoch 1: idle -> ready (opens the registration round for epoch 2)
         tester.cycle().await.unwrap();
-        let sf: Vec<_> = gfix.signers_fixture().into_iter().filter(|x| s.iter().any(|i| fx.ids[*i] == x.signer_with_stake.party_id)).collect();
-        tester.register_signers(&sf).await.unwrap();
-        tester.increase_epoch().await.unwrap();
-        // epoch 2: ready -> idle -> ready ; current = G (recorded for 1), next = S (recorded for 2)
-        for _ in 0..3 {
-            tester.cycle().await.unwrap();
-            if tester.runtime.state_label().to_string() == "ready" && *tester.observer.current_time_point().await.epoch == 2 {
-                break;
-            }
-        }
         let conn = ConnectionBuilder::open_file(&db).build().unwrap();
         let buf_repo = BufferedSingleSignatureRepository::new(Arc::new(conn));
-        let regs = Regs { cur: fx.slot_order(&g), nxt: fx.slot_order(&s), cur_set: g, nxt_set: s };
-        World { tester, buf_repo, regs, epoch: 2, next_imm: 1000 }
+        let mut w = World { tester, buf_repo, chain, epoch: 1, next_imm: 1000 };
+        assert!(w.advance(fx).await, "the aggregator did not reach epoch 2");
+        w
     }
 
-    async fn message_for(&mut self, imm: u64) -> ProtocolMessage {
-        self.tester.digester.update_digest(format!("c16-e{}-i{}", self.epoch, imm)).await;
+    /// register chain[epoch] (NEXT of the coming epoch), move the chain to the next epoch, run the
+    /// state machine until it is ready there (inform_epoch of the epoch service and of the certifier,
+    /// precompute_epoch_data, certificate chain check, new registration round)
+    async fn advance(&mut self, fx: &mut Fx) -> bool {
+        let reg = self.chain[self.epoch as usize].clone();
+        for sws in fx.sub(&reg).signers.clone() {
+            if let Err(e) = self.tester.dependencies.signer_registerer.register_signer(Epoch(self.epoch + 1), &sws.into()).await {
+                eprintln!("c16: signer registration for epoch {} failed: {:?}", self.epoch + 1, e);
+                return false;
+            }
+        }
+        self.tester.increase_epoch().await.unwrap();
+        self.epoch += 1;
+        for _ in 0..4 {
+            if let Err(e) = self.tester.cycle().await {
+                eprintln!("c16: state machine cycle failed at epoch {}: {:?}", self.epoch, e);
+            }
+            if self.tester.runtime.state_label().to_string() == "ready" && *self.tester.observer.current_time_point().await.epoch == self.epoch {
+                return true;
+            }
+        }
+        eprintln!("c16: the aggregator did not become ready at epoch {}", self.epoch);
+        false
+    }
+
+    fn regs(&self, fx: &mut Fx) -> Regs {
+        let e = self.epoch as usize;
+        let cur_reg = self.chain[e - 2].clone();
+        let nxt_reg = self.chain[e - 1].clone();
+        let prev_reg = if e >= 3 { Some(self.chain[e - 3].clone()) } else { None };
+        Regs { cur: fx.slot_order(&cur_reg), nxt: fx.slot_order(&nxt_reg), cur_reg, nxt_reg, prev_reg }
+    }
+
+    async fn message_for(&mut self, fx: &mut Fx, epoch: u64, imm: u64, second: bool) -> (SignedEntityType, ProtocolMessage) {
+        self.tester.digester.update_digest(format!("c16-e{}-i{}-{}", epoch, imm, second)).await;
         self.tester.digester.update_merkle_tree(vec![imm.to_string()]).await;
-        self.tester
-            .dependencies
-            .signable_builder_service
-            .compute_protocol_message(SignedEntityType::CardanoDatabase(CardanoDbBeacon::new(self.epoch, imm)))
-            .await
-            .unwrap()
+        let beacon = CardanoDbBeacon::new(epoch, imm);
+        let entity = SignedEntityType::CardanoDatabase(beacon);
+        let mut pm = self.tester.dependencies.signable_builder_service.compute_protocol_message(entity.clone()).await.unwrap();
+        if epoch != self.epoch {
+            // a message of the COMING epoch, as a signer that has already seen the epoch change computes it:
+            // the epoch parts are those of that epoch (its number, the key of the registration that is NEXT there)
+            use mithril_common::crypto_helper::ProtocolAggregateVerificationKeyForConcatenation;
+            use mithril_common::entities::ProtocolMessagePartKey as K;
+            let next_there = self.chain[epoch as usize - 1].clone();
+            let avk: ProtocolAggregateVerificationKeyForConcatenation = SignerBuilder::new(&fx.sub(&next_there).signers.clone(), &fx.params.clone())
+                .unwrap()
+                .compute_aggregate_verification_key()
+                .to_concatenation_aggregate_verification_key()
+                .to_owned()
+                .into();
+            pm.set_message_part(K::NextAggregateVerificationKey, avk.to_json_hex().unwrap());
+            pm.set_message_part(K::CurrentEpoch, epoch.to_string());
+        }
+        if second {
+            // another signed entity type with its own message (the epoch parts are those of the epoch)
+            pm.set_message_part(mithril_common::entities::ProtocolMessagePartKey::CardanoTransactionsMerkleRoot, format!("c16-tx-root-e{}-i{}", epoch, imm));
+            pm.set_message_part(mithril_common::entities::ProtocolMessagePartKey::LatestBlockNumber, imm.to_string());
+            return (SignedEntityType::CardanoTransactions(Epoch(epoch), BlockNumber(imm)), pm);
+        }
+        (entity, pm)
+    }
+
+    /// one honest round: makes sure the epoch has a certificate (no epoch gap at the next transition).
+    /// Never the detector of a misbehaviour: when the implementation refuses honest signatures the
+    /// cases of the epoch report it (with the input), this only says whether a certificate exists.
+    async fn honest_round(&mut self, fx: &mut Fx) -> bool {
+        let regs = self.regs(fx);
+        for _ in 0..40 {
+            let imm = self.next_imm;
+            self.next_imm += 1;
+            let (entity, pm) = self.message_for(fx, self.epoch, imm, false).await;
+            let deps = &self.tester.dependencies;
+            if deps.certifier_service.create_open_message(&entity, &pm).await.is_err() {
+                continue;
+            }
+            for p in &regs.cur_reg.0 {
+                if let Some(s) = fx.sign(*p, &regs.cur_reg, &pm) {
+                    let _ = deps.certifier_service.register_single_signature(&entity, &s).await;
+                }
+            }
+            if let Ok(Some(_)) = deps.certifier_service.create_certificate(&entity).await {
+                return true;
+            }
+        }
+        eprintln!("c16: no honest round produced a certificate at epoch {}", self.epoch);
+        false
     }
 
     async fn clear_buffer(&self) {
-        let all = self.buf_repo.get_buffered_signatures(D::CardanoDatabase).await.unwrap();
-        self.buf_repo.remove_buffered_signatures(D::CardanoDatabase, all).await.unwrap();
+        for d in [D::CardanoDatabase, D::CardanoTransactions] {
+            let all = self.buf_repo.get_buffered_signatures(d).await.unwrap();
+            self.buf_repo.remove_buffered_signatures(d, all).await.unwrap();
+        }
     }
 }
 
@@ -375,55 +554,82 @@ fn status_class(code: u16) -> u64 {
 
 // ------------------------------------------------------------------ one case
 
-struct Outcome {
-    obs: String,
+/// what the case's entities and messages really are
+struct Ctx {
+    ents: BTreeMap<u64, (SignedEntityType, ProtocolMessage)>,
+    /// model message id -> the string actually signed
+    msgs: HashMap<u64, String>,
+}
+
+type Row = (u64, Option<Prov>, u64, Vec<u64>, Vec<u64>); // label, provenance, slot, idxs, won field
+
+#[derive(Default)]
+struct Seg {
     ev_out: Vec<u64>,
-    rows: Vec<(u64, Option<Prov>, u64, Vec<u64>, Vec<u64>)>, // label, provenance, slot, idxs, won field
-    buf: Vec<(u64, Option<Prov>, u64, Vec<u64>, Vec<u64>)>,
-    certs: Vec<Vec<u64>>,
+    rows: Vec<(u64, Row)>, // (entity, row)
+    buf: Vec<(u64, Row)>,  // (type, row)
+    certs: Vec<(u64, Vec<u64>)>,
+    obs_state: String,
 }
 
 fn prov_obs(p: &Option<Prov>, regs: &Regs) -> String {
     match p {
-        Some(Prov::Made { party, msg, set }) => {
-            let rid = if *set == regs.cur_set { 0 } else if *set == regs.nxt_set { 1 } else { 2 };
-            coq::ol(&[coq::on(10 + *party as u64), coq::on(*msg), coq::on(rid)])
+        Some(Prov::Made { party, msg, reg }) => {
+            let rid = if *reg == regs.cur_reg { 0 } else if *reg == regs.nxt_reg { 1 } else { 2 };
+            coq::ol(&[coq::on(vk_id(*party, reg.1)), coq::on(*msg), coq::on(rid)])
         }
         Some(Prov::Junk(n)) => coq::ol(&[coq::on(999), coq::on(*n)]),
         None => coq::ol(&[coq::on(888)]), // a sigma the harness never produced
     }
 }
 
-async fn run_case(w: &mut World, fx: &Fx, evs: &[Ev], provs: &HashMap<String, Prov>, entity: &SignedEntityType, pm: &ProtocolMessage, other_msg: &str) -> Outcome {
-    w.clear_buffer().await;
+/// runs the events of one segment on the real services and reads the state back
+async fn run_segment(w: &mut World, fx: &Fx, evs: &[Ev], provs: &HashMap<String, Prov>, ctx: &Ctx, regs: &Regs) -> Seg {
     let deps = &w.tester.dependencies;
-    let mut ev_out = vec![];
-    let mut certs: Vec<Vec<u64>> = vec![];
+    let mut seg = Seg::default();
     for ev in evs {
         match ev {
-            Ev::Open => {
+            Ev::Open(ent) => {
+                let (entity, pm) = &ctx.ents[ent];
                 let r = guarded(deps.certifier_service.create_open_message(entity, pm)).await;
-                ev_out.push(match r {
+                seg.ev_out.push(match r {
                     Ok(Ok(_)) => 0,
                     Ok(Err(_)) => 9,
                     Err(()) => PANIC,
                 });
             }
-            Ev::Seal => match guarded(deps.certifier_service.create_certificate(entity)).await.unwrap_or_else(|_| Err(anyhow::anyhow!("panic"))) {
+            Ev::Seal(ent) => match guarded(deps.certifier_service.create_certificate(&ctx.ents[ent].0)).await.unwrap_or_else(|_| Err(anyhow::anyhow!("panic"))) {
                 Ok(Some(c)) => {
                     let mut s: Vec<u64> = c.metadata.signers.iter().map(|p| lab_of(&fx.ids, &p.party_id)).collect();
                     s.sort();
-                    certs.push(s);
-                    ev_out.push(0);
+                    seg.certs.push((*ent, s));
+                    seg.ev_out.push(0);
                 }
-                Ok(None) => ev_out.push(1),
+                Ok(None) => seg.ev_out.push(1),
                 Err(e) => match e.downcast_ref::<CertifierServiceError>() {
-                    Some(CertifierServiceError::NotFound(_)) => ev_out.push(2),
-                    Some(CertifierServiceError::AlreadyCertified(_)) => ev_out.push(3),
-                    _ => ev_out.push(if e.to_string() == "panic" { PANIC } else { 98 }),
+                    Some(CertifierServiceError::NotFound(_)) => seg.ev_out.push(2),
+                    Some(CertifierServiceError::AlreadyCertified(_)) => seg.ev_out.push(3),
+                    _ => {
+                        if std::env::var("C16_DEBUG").is_ok() {
+                            eprintln!("create_certificate error: {:?}", e);
+                        }
+                        seg.ev_out.push(if e.to_string() == "panic" { PANIC } else { 98 })
+                    }
                 },
             },
-            Ev::Sub { path, claimed, sg } => {
+            Ev::Batch(items) => {
+                let batch: Vec<(SingleSignature, SignedEntityType)> = items
+                    .iter()
+                    .map(|(ent, sg)| {
+                        let mut sig = sg.real.clone();
+                        sig.authentication_status = SingleSignatureAuthenticationStatus::Unauthenticated;
+                        (sig, ctx.ents[ent].0.clone())
+                    })
+                    .collect();
+                seg.ev_out.push(dmq(w, batch).await);
+            }
+            Ev::Sub { path, ent, claimed, sg } => {
+                let entity = &ctx.ents[ent].0;
                 let mut sig = sg.real.clone();
                 sig.authentication_status = SingleSignatureAuthenticationStatus::Unauthenticated;
                 let out = match path {
@@ -433,7 +639,7 @@ async fn run_case(w: &mut World, fx: &Fx, evs: &[Ev], provs: &HashMap<String, Pr
                             party_id: sig.party_id.clone(),
                             signature: sig.signature.to_json_hex().unwrap(),
                             won_indexes: sig.won_indexes.clone(),
-                            signed_message: if *claimed == MSG { pm.to_message() } else { other_msg.to_string() },
+                            signed_message: ctx.msgs[claimed].clone(),
                         };
                         guarded(verif::http_register_signature(deps, message)).await.map(status_class).unwrap_or(PANIC)
                     }
@@ -448,50 +654,53 @@ async fn run_case(w: &mut World, fx: &Fx, evs: &[Ev], provs: &HashMap<String, Pr
                             _ => 97,
                         },
                     },
-                    Path::Dmq => {
-                        let (_tx, rx) = tokio::sync::watch::channel(());
-                        let p = SequentialSignatureProcessor::new(
-                            Arc::new(OneBatch(tokio::sync::Mutex::new(Some(vec![(sig.clone(), entity.clone())])))),
-                            deps.certifier_service.clone(),
-                            rx,
-                            w.tester.metrics_service.clone(),
-                            Duration::from_millis(1),
-                            slog::Logger::root(slog::Discard, slog::o!()),
-                        );
-                        match guarded(p.process_signatures()).await {
-                            Ok(Ok(_)) => 10,
-                            Ok(Err(_)) => 11,
-                            Err(()) => PANIC,
-                        }
-                    }
+                    Path::Dmq => dmq(w, vec![(sig.clone(), entity.clone())]).await,
                 };
-                ev_out.push(out);
+                seg.ev_out.push(out);
             }
         }
     }
-    let conv = |s: &SingleSignature| {
+    let conv = |s: &SingleSignature| -> Row {
         let (hx, slot, idxs) = parts(s);
         (lab_of(&fx.ids, &s.party_id), provs.get(&hx).cloned(), slot, idxs, s.won_indexes.clone())
     };
-    let mut rows: Vec<_> = match deps.certifier_service.get_open_message(entity).await.unwrap() {
-        Some(om) => om.single_signatures.iter().map(conv).collect(),
-        None => vec![],
-    };
-    rows.sort_by_key(|r| r.0);
-    let mut buf: Vec<_> = w.buf_repo.get_buffered_signatures(D::CardanoDatabase).await.unwrap().iter().map(conv).collect();
-    buf.sort_by_key(|r| r.0);
-    let row_obs = |r: &(u64, Option<Prov>, u64, Vec<u64>, Vec<u64>)| {
-        coq::ol(&[coq::on(r.0), prov_obs(&r.1, &w.regs), coq::on(r.2), coq::oln(&r.3), coq::oln(&r.4)])
-    };
-    let obs = coq::ol(&[
-        coq::ol(&ev_out.iter().map(|x| coq::on(*x)).collect::<Vec<_>>()),
-        coq::ol(&[
-            coq::ol(&rows.iter().map(|r| coq::ol(&[coq::on(ENT), row_obs(r)])).collect::<Vec<_>>()),
-            coq::ol(&buf.iter().map(row_obs).collect::<Vec<_>>()),
-            coq::ol(&certs.iter().map(|s| coq::ol(&[coq::on(ENT), coq::oln(s)])).collect::<Vec<_>>()),
-        ]),
+    for (ent, (entity, _)) in &ctx.ents {
+        if let Some(om) = deps.certifier_service.get_open_message(entity).await.unwrap() {
+            let mut rows: Vec<Row> = om.single_signatures.iter().map(conv).collect();
+            rows.sort_by_key(|r| r.0);
+            seg.rows.extend(rows.into_iter().map(|r| (*ent, r)));
+        }
+    }
+    for (ty, d) in [(0u64, D::CardanoDatabase), (1u64, D::CardanoTransactions)] {
+        let mut b: Vec<Row> = w.buf_repo.get_buffered_signatures(d).await.unwrap().iter().map(conv).collect();
+        b.sort_by_key(|r| r.0);
+        seg.buf.extend(b.into_iter().map(|r| (ty, r)));
+    }
+    let row_obs = |r: &Row| coq::ol(&[coq::on(r.0), prov_obs(&r.1, regs), coq::on(r.2), coq::oln(&r.3), coq::oln(&r.4)]);
+    seg.obs_state = coq::ol(&[
+        coq::ol(&seg.rows.iter().map(|(e, r)| coq::ol(&[coq::on(*e), row_obs(r)])).collect::<Vec<_>>()),
+        coq::ol(&seg.buf.iter().map(|(t, r)| coq::ol(&[coq::on(*t), row_obs(r)])).collect::<Vec<_>>()),
+        coq::ol(&seg.certs.iter().map(|(e, s)| coq::ol(&[coq::on(*e), coq::oln(s)])).collect::<Vec<_>>()),
     ]);
-    Outcome { obs, ev_out, rows, buf, certs }
+    seg
+}
+
+/// one batch through the real DMQ signature processor
+async fn dmq(w: &World, batch: Vec<(SingleSignature, SignedEntityType)>) -> u64 {
+    let (_tx, rx) = tokio::sync::watch::channel(());
+    let p = SequentialSignatureProcessor::new(
+        Arc::new(OneBatch(tokio::sync::Mutex::new(Some(batch)))),
+        w.tester.dependencies.certifier_service.clone(),
+        rx,
+        w.tester.metrics_service.clone(),
+        Duration::from_millis(1),
+        slog::Logger::root(slog::Discard, slog::o!()),
+    );
+    match guarded(p.process_signatures()).await {
+        Ok(Ok(_)) => 10,
+        Ok(Err(_)) => 11,
+        Err(()) => PANIC,
+    }
 }
 
 // ------------------------------------------------------------------ oracle (provenance only)
@@ -502,141 +711,198 @@ struct Verdict {
     known: Option<String>,
 }
 
-fn judge(evs: &[Ev], out: &Outcome, regs: &Regs) -> Verdict {
-    let bad = |why: String| Verdict { ok: false, why: Some(why), known: None };
-    let known = |why: String, k: &str| Verdict { ok: false, why: Some(why), known: Some(k.to_string()) };
-    let genuine = |label: u64, p: &Option<Prov>| match p {
-        Some(Prov::Made { party, msg, set }) => *party as u64 == label && *msg == MSG && *set == regs.cur_set && regs.cur_set.contains(party),
-        _ => false,
-    };
-    if let Some(i) = out.ev_out.iter().position(|o| *o == PANIC) {
-        return bad(format!("the implementation panicked while handling event {}", i));
-    }
-    // (1) every stored row: sigma made by the key registered (current epoch) by the row's party, for this message
-    for r in &out.rows {
-        if !genuine(r.0, &r.1) {
-            return bad(format!("row stored under label {} holds a sigma of provenance {:?}: not a signature of this open message by the key that party registered", r.0, r.1));
-        }
-    }
-    // (2) no sigma under two names
-    for a in &out.rows {
-        for b in &out.rows {
-            if a.0 != b.0 && a.1 == b.1 {
-                return bad(format!("the same sigma is stored under labels {} and {}", a.0, b.0));
-            }
-        }
-    }
-    // (3) certificate signers all truly signed
-    for c in &out.certs {
-        for l in c {
-            if !out.rows.iter().any(|r| r.0 == *l && genuine(r.0, &r.1)) {
-                return bad(format!("certificate lists signer {} which has no genuine signature stored", l));
-            }
-        }
-    }
-    // (4) honest contributions: an honest submission (own full signature, own name) made while the round is
-    // open, or buffered before it opens, must be there at the end, complete
-    let open_at = evs.iter().position(|e| matches!(e, Ev::Open));
-    let seal_ok_at = evs.iter().zip(&out.ev_out).position(|(e, o)| matches!(e, Ev::Seal) && *o == 0);
-    let mut later_known: Option<Verdict> = None;
-    for (i, ev) in evs.iter().enumerate() {
-        let Ev::Sub { path, sg, .. } = ev else { continue };
-        if !sg.honest {
-            continue;
-        }
-        let Lab::Party(p) = sg.label else { continue };
-        let before_open = open_at.map(|o| i < o).unwrap_or(true);
-        let after_seal = seal_ok_at.map(|s| i > s).unwrap_or(false);
-        let expected_out: u64 = match (path, before_open, after_seal) {
-            (Path::Dmq, _, _) => 10,
-            (Path::Direct, true, _) => 2,
-            (_, true, _) => 1,
-            (_, false, true) => 3,
-            (_, false, false) => 0,
-        };
-        if out.ev_out[i] != expected_out {
-            return bad(format!("honest submission of party {} (event {}) got outcome {} instead of {}", p, i, out.ev_out[i], expected_out));
-        }
-        let contributes = match (path, before_open, after_seal) {
-            (Path::Direct, true, _) => false,
-            (_, true, _) => open_at.is_some(),
-            (_, false, s) => !s,
-        };
-        if !contributes {
-            continue;
-        }
-        // DMQ labels are transport-authenticated: a later DMQ message labelled p is p's own act
-        let self_displaced = before_open
-            && evs[i + 1..open_at.unwrap()].iter().any(|e| matches!(e, Ev::Sub { path: Path::Dmq, sg: s2, .. } if s2.label == sg.label && !s2.honest));
-        if self_displaced {
-            continue;
-        }
-        match out.rows.iter().find(|r| r.0 == p as u64) {
-            None => {
-                // displaced in the buffer by a replay of p's own (other-message) signature through HTTP?
-                let replay = before_open
-                    && evs[i + 1..open_at.unwrap()].iter().any(|e| matches!(e, Ev::Sub { path: Path::Http, sg: s2, .. }
-                        if s2.label == sg.label && matches!(&s2.prov, Prov::Made { party, .. } if *party == p) && s2.sigma_hex != sg.sigma_hex));
-                if replay {
-                    later_known.get_or_insert(known(
-                        format!("honest buffered signature of party {} was displaced by a replay of its own signature of another message / registration: no row after the round opened", p),
-                        "C16-buffer-replay",
-                    ));
-                } else {
-                    return bad(format!("honest signature of party {} (event {}) is not stored at the end", p, i));
+/// the events that concern one entity, batches flattened (the outcome of a batch item is not observable)
+enum V<'a> {
+    Sub { path: Path, sg: &'a Sg },
+    Open,
+    Seal,
+}
+fn view<'a>(evs: &'a [Ev], outs: &[u64], ent: u64) -> Vec<(V<'a>, Option<u64>)> {
+    let mut v = vec![];
+    for (e, o) in evs.iter().zip(outs) {
+        match e {
+            Ev::Sub { path, ent: e2, sg, .. } if *e2 == ent => v.push((V::Sub { path: *path, sg }, Some(*o))),
+            Ev::Batch(items) => {
+                for (e2, sg) in items {
+                    if *e2 == ent {
+                        v.push((V::Sub { path: Path::Dmq, sg }, None));
+                    }
                 }
             }
-            Some(r) => {
-                let have: BTreeSet<u64> = r.3.iter().copied().collect();
-                if !sg.full.iter().all(|x| have.contains(x)) {
-                    let subset_replay = evs.iter().enumerate().any(|(j, e)| j != i && matches!(e, Ev::Sub { sg: s2, .. }
-                        if s2.label == sg.label && s2.sigma_hex == sg.sigma_hex && s2.idxs.len() < sg.full.len()));
-                    if subset_replay {
+            Ev::Open(e2) if *e2 == ent => v.push((V::Open, Some(*o))),
+            Ev::Seal(e2) if *e2 == ent => v.push((V::Seal, Some(*o))),
+            _ => {}
+        }
+    }
+    v
+}
+
+/// `fulls`: sigma -> every index it wins (the real lottery, from the honest signature)
+fn judge(evs: &[Ev], outs: &[u64], rows_all: &[(u64, Row)], certs_all: &[(u64, Vec<u64>)], regs: &Regs, fulls: &HashMap<Prov, Vec<u64>>, ents: &[u64]) -> Verdict {
+    let bad = |why: String| Verdict { ok: false, why: Some(why), known: None };
+    let known = |why: String, k: &str| Verdict { ok: false, why: Some(why), known: Some(k.to_string()) };
+    if let Some(i) = outs.iter().position(|o| *o == PANIC) {
+        return bad(format!("the implementation panicked while handling event {}", i));
+    }
+    let mut later_known: Option<Verdict> = None;
+    for ent in ents {
+        let msg = msg_of(*ent);
+        let genuine = |label: u64, p: &Option<Prov>| match p {
+            Some(Prov::Made { party, msg: m, reg }) => *party as u64 == label && *m == msg && *reg == regs.cur_reg && regs.cur_reg.0.contains(party),
+            _ => false,
+        };
+        let rows: Vec<&Row> = rows_all.iter().filter(|(e, _)| e == ent).map(|(_, r)| r).collect();
+        let certs: Vec<&Vec<u64>> = certs_all.iter().filter(|(e, _)| e == ent).map(|(_, c)| c).collect();
+        // (1) every stored row: sigma made by the key registered (current epoch) by the row's party, for this
+        // message; it names that party's slot and carries only indexes that sigma won
+        for r in &rows {
+            if !genuine(r.0, &r.1) {
+                return bad(format!("entity {}: row stored under label {} holds a sigma of provenance {:?}: not a signature of this open message by the key that party registered for the epoch", ent, r.0, r.1));
+            }
+            let full: Vec<u64> = match &r.1 { Some(p) => fulls.get(p).cloned().unwrap_or_default(), None => vec![] };
+            if let Some(x) = r.3.iter().find(|x| !full.contains(x)) {
+                return bad(format!("entity {}: row stored under label {} carries index {} which that signature did not win ({:?})", ent, r.0, x, full));
+            }
+            if regs.cur.get(r.2 as usize).map(|p| *p as u64) != Some(r.0) {
+                return bad(format!("entity {}: row stored under label {} names slot {} which is not that party's slot", ent, r.0, r.2));
+            }
+        }
+        // (2) no sigma under two names
+        for a in &rows {
+            for b in &rows {
+                if a.0 != b.0 && a.1 == b.1 {
+                    return bad(format!("entity {}: the same sigma is stored under labels {} and {}", ent, a.0, b.0));
+                }
+            }
+        }
+        // (3) certificate signers all truly signed
+        for c in &certs {
+            for l in c.iter() {
+                if !rows.iter().any(|r| r.0 == *l && genuine(r.0, &r.1)) {
+                    return bad(format!("entity {}: certificate lists signer {} which has no genuine signature stored", ent, l));
+                }
+            }
+        }
+        // (4) honest contributions: an honest submission (own full signature, own name) made while the round is
+        // open, or buffered before it opens, must be there at the end, complete
+        let vw = view(evs, outs, *ent);
+        let open_at = vw.iter().position(|(e, _)| matches!(e, V::Open));
+        let seal_ok_at = vw.iter().position(|(e, o)| matches!(e, V::Seal) && *o == Some(0));
+        for (i, (ev, out)) in vw.iter().enumerate() {
+            let V::Sub { path, sg } = ev else { continue };
+            if !sg.honest {
+                continue;
+            }
+            let Lab::Party(p) = sg.label else { continue };
+            let before_open = open_at.map(|o| i < o).unwrap_or(true);
+            let after_seal = seal_ok_at.map(|s| i > s).unwrap_or(false);
+            let expected_out: u64 = match (path, before_open, after_seal) {
+                (Path::Dmq, _, _) => 10,
+                (Path::Direct, true, _) => 2,
+                (_, true, _) => 1,
+                (_, false, true) => 3,
+                (_, false, false) => 0,
+            };
+            if let Some(o) = out {
+                if *o != expected_out {
+                    return bad(format!("entity {}: honest submission of party {} got outcome {} instead of {}", ent, p, o, expected_out));
+                }
+            }
+            let contributes = match (path, before_open, after_seal) {
+                (Path::Direct, true, _) => false,
+                (_, true, _) => open_at.is_some(),
+                (_, false, s) => !s,
+            };
+            if !contributes {
+                continue;
+            }
+            // DMQ labels are transport-authenticated: a later DMQ message labelled p is p's own act
+            let self_displaced = before_open
+                && vw[i + 1..open_at.unwrap()].iter().any(|(e, _)| matches!(e, V::Sub { path: Path::Dmq, sg: s2 } if s2.label == sg.label && !s2.honest));
+            if self_displaced {
+                continue;
+            }
+            match rows.iter().find(|r| r.0 == p as u64) {
+                None => {
+                    // displaced in the buffer by a replay of p's own (other message / registration) signature through HTTP?
+                    let replay = before_open
+                        && vw[i + 1..open_at.unwrap()].iter().any(|(e, _)| matches!(e, V::Sub { path: Path::Http, sg: s2 }
+                            if s2.label == sg.label && matches!(&s2.prov, Prov::Made { party, .. } if *party == p) && s2.sigma_hex != sg.sigma_hex));
+                    if replay {
                         later_known.get_or_insert(known(
-                            format!("party {}'s stored row carries indexes {:?} instead of the {:?} it won: a copy of its own signature with a reduced index list overwrote (or pre-empted) the complete one", p, r.3, sg.full),
-                            "C16-index-subset-replay",
+                            format!("entity {}: honest buffered signature of party {} was displaced by a replay of its own signature of another message / registration: no row after the round opened", ent, p),
+                            "C16-buffer-replay",
                         ));
                     } else {
-                        return bad(format!("party {}'s stored row lost indexes: {:?} instead of {:?}", p, r.3, sg.full));
+                        return bad(format!("entity {}: honest signature of party {} is not stored at the end", ent, p));
+                    }
+                }
+                Some(r) => {
+                    let have: BTreeSet<u64> = r.3.iter().copied().collect();
+                    if !sg.full.iter().all(|x| have.contains(x)) {
+                        let subset_replay = vw.iter().enumerate().any(|(j, (e, _))| j != i && matches!(e, V::Sub { sg: s2, .. }
+                            if s2.label == sg.label && s2.sigma_hex == sg.sigma_hex && !sg.full.iter().all(|x| s2.idxs.contains(x))));
+                        if subset_replay {
+                            later_known.get_or_insert(known(
+                                format!("entity {}: party {}'s stored row carries indexes {:?} instead of the {:?} it won: a copy of its own signature with a reduced index list overwrote (or pre-empted) the complete one", ent, p, r.3, sg.full),
+                                "C16-index-subset-replay",
+                            ));
+                        } else {
+                            return bad(format!("entity {}: party {}'s stored row lost indexes: {:?} instead of {:?}", ent, p, r.3, sg.full));
+                        }
                     }
                 }
             }
         }
     }
-    let _ = &out.buf;
     later_known.unwrap_or(Verdict { ok: true, why: None, known: None })
 }
 
 // ------------------------------------------------------------------ generator
 
 struct CaseIn {
-    evs: Vec<Ev>,
-    lot: Vec<(String, u64, Vec<u64>)>, // (coq sigma, stake, won)
+    /// events before the (first entity's) Open, and from it on: a transition case runs `pre` one epoch early
+    pre: Vec<Ev>,
+    post: Vec<Ev>,
+    lot: Vec<(Prov, u64, Vec<u64>)>, // (sigma, stake, won)
     provs: HashMap<String, Prov>,
-    kinds: BTreeSet<&'static str>,
+    kinds: Vec<&'static str>,
+    second: bool,
 }
 
+const N_KINDS: u64 = 24;
+
+/// `force`: adversarial kinds that must appear (systematic coverage), the rest is drawn
 #[allow(clippy::too_many_arguments)]
-fn gen_case(rng: &mut Rng, fx: &mut Fx, regs: &Regs, pm: &ProtocolMessage, pm_other: &ProtocolMessage, thorough: bool) -> CaseIn {
+fn gen_case(rng: &mut Rng, fx: &mut Fx, regs: &Regs, pm: &ProtocolMessage, pm_other: &ProtocolMessage, pm2: &ProtocolMessage, thorough: bool, force: &[u64], allow_second: bool) -> CaseIn {
     let ids = fx.ids.clone();
-    let cur = regs.cur_set.clone();
-    let nxt = regs.nxt_set.clone();
-    let all6: Vec<usize> = (0..NP).collect();
+    let cur = regs.cur_reg.clone();
+    let nxt = regs.nxt_reg.clone();
+    // a registration that is neither current nor next: the one of the past epoch, else the current set with keys nobody registered
+    let past: Reg = regs.prev_reg.clone().filter(|r| *r != cur && *r != nxt).unwrap_or((cur.0.clone(), 3));
+    let all6: Reg = ((0..NP).collect(), 0);
+    let second = allow_second && rng.chance(1, 3);
     let mut provs: HashMap<String, Prov> = HashMap::new();
     let mut lot: BTreeMap<String, (Prov, u64, Vec<u64>)> = BTreeMap::new();
-    // base signatures: (party, msg id, set) -> honest SingleSignature
-    let mut base: HashMap<(usize, u64, Vec<usize>), SingleSignature> = HashMap::new();
-    let combos: Vec<(u64, &ProtocolMessage, Vec<usize>)> =
-        vec![(MSG, pm, cur.clone()), (MSG_OTHER, pm_other, cur.clone()), (MSG, pm, nxt.clone()), (MSG, pm, all6.clone())];
-    for (mid, m, set) in &combos {
-        for p in set {
-            if let Some(s) = fx.sign(*p, set, m) {
+    // base signatures: (party, msg id, registration) -> honest SingleSignature
+    let mut base: HashMap<(usize, u64, Reg), SingleSignature> = HashMap::new();
+    let mut combos: Vec<(u64, &ProtocolMessage, Reg)> =
+        vec![(MSG, pm, cur.clone()), (MSG_OTHER, pm_other, cur.clone()), (MSG, pm, nxt.clone()), (MSG, pm, past.clone()), (MSG, pm, all6.clone())];
+    if second {
+        combos.push((MSG2, pm2, cur.clone()));
+    }
+    for (mid, m, reg) in &combos {
+        for p in &reg.0 {
+            if base.contains_key(&(*p, *mid, reg.clone())) {
+                continue;
+            }
+            if let Some(s) = fx.sign(*p, reg, m) {
                 let (hx, _slot, idxs) = parts(&s);
-                let pr = Prov::Made { party: *p, msg: *mid, set: set.clone() };
+                let pr = Prov::Made { party: *p, msg: *mid, reg: reg.clone() };
                 // identical registrations give identical signatures: keep the first provenance
                 provs.entry(hx.clone()).or_insert(pr.clone());
                 lot.entry(hx).or_insert((pr, STAKES[*p], idxs));
-                base.insert((*p, *mid, set.clone()), s);
+                base.insert((*p, *mid, reg.clone()), s);
             }
         }
     }
@@ -657,33 +923,46 @@ fn gen_case(rng: &mut Rng, fx: &mut Fx, regs: &Regs, pm: &ProtocolMessage, pm_ot
         Sg { label, prov: provs[&hx].clone(), slot, idxs, won, full: i0, sigma_hex: hx, real, what, honest }
     };
     let paths = [Path::Http, Path::Direct, Path::Dmq];
-    let signed_cur: Vec<usize> = cur.iter().copied().filter(|p| base.contains_key(&(*p, MSG, cur.clone()))).collect();
     let slot_in_cur = |p: usize| regs.cur.iter().position(|x| *x == p).map(|x| x as u64);
-    let mut kinds: BTreeSet<&'static str> = BTreeSet::new();
+    let mut kinds: Vec<&'static str> = vec![];
 
-    // honest submissions, random order / path / phase
-    let mut honest: Vec<(bool, Ev)> = vec![]; // (before open?, event)
-    let mut order = signed_cur.clone();
-    rng.shuffle(&mut order);
-    let skip = if rng.chance(1, 4) && order.len() > 1 { 1 } else { 0 };
-    for p in order.iter().skip(skip) {
-        let b = &base[&(*p, MSG, cur.clone())];
-        let sg = mk(b, Lab::Party(*p), None, None, None, "honest", true, &provs);
-        let early = rng.chance(1, 3);
-        let path = if early { *rng.pick(&[Path::Http, Path::Dmq, Path::Http, Path::Direct]) } else { *rng.pick(&paths) };
-        honest.push((early, Ev::Sub { path, claimed: MSG, sg }));
-    }
+    // honest submissions of one entity, random order / path / phase: (before open?, event)
+    let honest_of = |rng: &mut Rng, ent: u64, mid: u64| -> Vec<(bool, Ev)> {
+        let mut out = vec![];
+        let mut order: Vec<usize> = cur.0.iter().copied().filter(|p| base.contains_key(&(*p, mid, cur.clone()))).collect();
+        rng.shuffle(&mut order);
+        let skip = if rng.chance(1, 4) && order.len() > 1 { 1 } else { 0 };
+        for p in order.iter().skip(skip) {
+            let b = &base[&(*p, mid, cur.clone())];
+            let sg = mk(b, Lab::Party(*p), None, None, None, "honest", true, &provs);
+            let early = rng.chance(1, 3);
+            let path = if early { *rng.pick(&[Path::Http, Path::Dmq, Path::Http, Path::Direct]) } else { *rng.pick(&paths) };
+            out.push((early, Ev::Sub { path, ent, claimed: mid, sg }));
+        }
+        out
+    };
+    let honest = honest_of(rng, ENT, MSG);
+    let honest2 = if second { honest_of(rng, ENT2, MSG2) } else { vec![] };
+
     // adversarial submissions
-    let n_adv = rng.range(1, if thorough { 4 } else { 3 });
+    let n_rand = rng.range(1, if thorough { 4 } else { 3 });
+    let mut wanted: Vec<u64> = force.to_vec();
+    for _ in 0..n_rand {
+        wanted.push(rng.below(N_KINDS));
+    }
     let mut adv: Vec<Ev> = vec![];
-    for _ in 0..n_adv {
-        let kind = rng.below(15);
+    for kind in wanted {
         let path = *rng.pick(&paths);
-        let a = *rng.pick(&cur);
-        let others: Vec<usize> = cur.iter().copied().filter(|x| *x != a).collect();
+        let a = *rng.pick(&cur.0);
+        let others: Vec<usize> = cur.0.iter().copied().filter(|x| *x != a).collect();
         let bparty = *rng.pick(&others);
         let base_a = base.get(&(a, MSG, cur.clone()));
         let mut claimed = MSG;
+        let mut ent = ENT;
+        let with_idx = |b: &SingleSignature, f: &dyn Fn(&Vec<u64>) -> Vec<u64>, what: &'static str, provs: &HashMap<String, Prov>| {
+            let (_, _, i0) = parts(b);
+            mk(b, Lab::Party(a), None, Some(f(&i0)), None, what, false, provs)
+        };
         let sg: Option<Sg> = match kind {
             // A's signature under B's name (keeps A's slot)
             0 | 1 => base_a.map(|b| mk(b, Lab::Party(bparty), None, None, None, "relabel: A's signature under B's name", false, &provs)),
@@ -691,7 +970,13 @@ fn gen_case(rng: &mut Rng, fx: &mut Fx, regs: &Regs, pm: &ProtocolMessage, pm_ot
             2 => base_a.map(|b| mk(b, Lab::Party(bparty), slot_in_cur(bparty), None, None, "relabel + B's slot", false, &provs)),
             // under an unregistered / upper-cased / empty / outsider / next-only name
             3 => base_a.map(|b| {
-                let l = *rng.pick(&[Lab::Unreg, Lab::Upper(a), Lab::Empty, Lab::Party(5), Lab::Upper(bparty)]);
+                let next_only = nxt.0.iter().copied().find(|q| !cur.0.contains(q));
+                let mut ls = vec![Lab::Unreg, Lab::Upper(a), Lab::Empty, Lab::Party(5), Lab::Upper(bparty)];
+                if let Some(q) = next_only {
+                    ls.push(Lab::Party(q));
+                    ls.push(Lab::Party(q));
+                }
+                let l = *rng.pick(&ls);
                 mk(b, l, None, None, None, "A's signature under a name that is not registered", false, &provs)
             }),
             // own name, reduced index list (subset / empty)
@@ -713,9 +998,9 @@ fn gen_case(rng: &mut Rng, fx: &mut Fx, regs: &Regs, pm: &ProtocolMessage, pm_ot
             7 => base_a.map(|b| mk(b, Lab::Party(a), slot_in_cur(bparty), None, None, "own signature naming another slot", false, &provs)),
             // only the decorative won_indexes field altered
             8 => base_a.map(|b| mk(b, Lab::Party(a), None, None, Some(vec![0, 1, 2, 19]), "own signature, altered won_indexes field", false, &provs)),
-            // signature made for the NEXT registration, own name / name of the party sitting at that slot in CURRENT
+            // signature made for the NEXT registration (the party's next-epoch key), own name / name of the party sitting at that slot in CURRENT
             9 | 10 => {
-                let q = *rng.pick(&nxt);
+                let q = *rng.pick(&nxt.0);
                 base.get(&(q, MSG, nxt.clone())).map(|b| {
                     let (_, s0, _) = parts(b);
                     let l = if kind == 9 { Lab::Party(q) } else { Lab::Party(*regs.cur.get(s0 as usize).unwrap_or(&q)) };
@@ -730,18 +1015,54 @@ fn gen_case(rng: &mut Rng, fx: &mut Fx, regs: &Regs, pm: &ProtocolMessage, pm_ot
             // junk sigma under a registered name
             13 => Some(mk(&junk, Lab::Party(bparty), slot_in_cur(bparty), Some(vec![1, 2]), None, "junk sigma under B's name", false, &provs)),
             // outsider key (never registered) under a registered name, naming that party's slot
-            _ => base.get(&(5, MSG, all6.clone())).map(|b| mk(b, Lab::Party(bparty), slot_in_cur(bparty), None, None, "unregistered key under B's name", false, &provs)),
+            14 => base.get(&(5, MSG, all6.clone())).map(|b| mk(b, Lab::Party(bparty), slot_in_cur(bparty), None, None, "unregistered key under B's name", false, &provs)),
+            // signature made with the key / for the registration of the PAST epoch (or with a key the party never
+            // registered), own name, naming the party's current slot or the slot it had there
+            15 | 16 => {
+                let q = *rng.pick(&past.0);
+                base.get(&(q, MSG, past.clone())).map(|b| {
+                    let slot = if kind == 15 { None } else { slot_in_cur(q) };
+                    mk(b, Lab::Party(q), slot, None, None, "signature made with the key of another epoch", false, &provs)
+                })
+            }
+            // index-list families on the genuine sigma, own name
+            17 => base_a.map(|b| with_idx(b, &|i0| { let mut v = i0.clone(); if let Some(x) = i0.first() { v.push(*x) } v }, "own signature, an index repeated", &provs)),
+            18 => base_a.map(|b| with_idx(b, &|i0| i0.iter().rev().copied().collect(), "own signature, index list reversed", &provs)),
+            19 => base_a.map(|b| with_idx(b, &|i0| { let mut v = i0.clone(); v.push(M); v }, "own signature plus index m", &provs)),
+            20 => base_a.map(|b| with_idx(b, &|i0| { let mut v = vec![u64::MAX]; v.extend(i0); v }, "own signature plus index u64::MAX", &provs)),
+            // cross-entity: a genuine signature of one open message submitted for the other one (own name;
+            // the HTTP request truthfully claims the message it signs)
+            21 | 22 if second => {
+                let (from_msg, to_ent) = if kind == 21 { (MSG, ENT2) } else { (MSG2, ENT) };
+                base.get(&(a, from_msg, cur.clone())).map(|b| {
+                    claimed = from_msg;
+                    ent = to_ent;
+                    mk(b, Lab::Party(a), None, None, None, "signature of the other entity's message", false, &provs)
+                })
+            }
+            // cross-entity relabel: A's signature of the second entity's message under B's name, for the second entity
+            23 if second => base.get(&(a, MSG2, cur.clone())).map(|b| {
+                claimed = MSG2;
+                ent = ENT2;
+                mk(b, Lab::Party(bparty), None, None, None, "relabel on the second entity", false, &provs)
+            }),
+            _ => None,
         };
         if let Some(sg) = sg {
-            kinds.insert(sg.what);
-            adv.push(Ev::Sub { path, claimed, sg });
+            if !kinds.contains(&sg.what) {
+                kinds.push(sg.what);
+            }
+            adv.push(Ev::Sub { path, ent, claimed, sg });
         }
     }
     // interleave: phase 1 (before Open): early honest + some adversarial; phase 2: the rest
     let mut pre: Vec<Ev> = honest.iter().filter(|h| h.0).map(|h| h.1.clone()).collect();
     let mut post: Vec<Ev> = honest.iter().filter(|h| !h.0).map(|h| h.1.clone()).collect();
+    let mut adv2: Vec<Ev> = vec![];
     for a in adv {
-        if rng.chance(1, 3) {
+        if matches!(&a, Ev::Sub { ent, .. } if *ent == ENT2) {
+            adv2.push(a);
+        } else if rng.chance(1, 3) {
             let at = rng.below(pre.len() as u64 + 1) as usize;
             pre.insert(at, a);
         } else {
@@ -749,26 +1070,83 @@ fn gen_case(rng: &mut Rng, fx: &mut Fx, regs: &Regs, pm: &ProtocolMessage, pm_ot
             post.insert(at, a);
         }
     }
-    let mut evs = pre;
-    evs.push(Ev::Open);
     // sometimes an early Seal in the middle (then later submissions meet a certified message)
     if rng.chance(1, 6) && !post.is_empty() {
         let at = rng.below(post.len() as u64 + 1) as usize;
-        post.insert(at, Ev::Seal);
+        post.insert(at, Ev::Seal(ENT));
     }
-    evs.extend(post);
+    post.insert(0, Ev::Open(ENT));
     if !rng.chance(1, 8) {
-        evs.push(Ev::Seal);
+        post.push(Ev::Seal(ENT));
     }
-    let regs_ref = regs;
-    let lot_v: Vec<(String, u64, Vec<u64>)> = lot
-        .values()
-        .map(|(pr, st, w)| {
-            let tmp = Sg { label: Lab::Empty, prov: pr.clone(), slot: 0, idxs: vec![], won: vec![], full: vec![], sigma_hex: String::new(), real: junk.clone(), what: "", honest: false };
-            (tmp.coq_sigma(fx, regs_ref), *st, w.clone())
-        })
-        .collect();
-    CaseIn { evs, lot: lot_v, provs, kinds }
+    // the second entity's own history (pre2, Open, post2, Seal), merged at random positions, order kept
+    if second {
+        let mut pre2: Vec<Ev> = honest2.iter().filter(|h| h.0).map(|h| h.1.clone()).collect();
+        let mut post2: Vec<Ev> = honest2.iter().filter(|h| !h.0).map(|h| h.1.clone()).collect();
+        for a in adv2 {
+            if rng.chance(1, 3) {
+                let at = rng.below(pre2.len() as u64 + 1) as usize;
+                pre2.insert(at, a);
+            } else {
+                let at = rng.below(post2.len() as u64 + 1) as usize;
+                post2.insert(at, a);
+            }
+        }
+        let mut h2 = pre2;
+        h2.push(Ev::Open(ENT2));
+        h2.extend(post2);
+        h2.push(Ev::Seal(ENT2));
+        // split point of the second history between `pre` and `post` of the first entity
+        let cut = rng.below(h2.len() as u64 + 1) as usize;
+        let merge = |rng: &mut Rng, a: Vec<Ev>, b: Vec<Ev>, keep_first: bool| -> Vec<Ev> {
+            let (mut ia, mut ib) = (a.into_iter().peekable(), b.into_iter().peekable());
+            let mut out = vec![];
+            // keep_first: the first element of `a` (the Open of the first entity) stays first
+            if keep_first {
+                if let Some(x) = ia.next() {
+                    out.push(x);
+                }
+            }
+            while ia.peek().is_some() || ib.peek().is_some() {
+                let take_a = ib.peek().is_none() || (ia.peek().is_some() && rng.coin());
+                out.push(if take_a { ia.next().unwrap() } else { ib.next().unwrap() });
+            }
+            out
+        };
+        let tail = h2.split_off(cut);
+        pre = merge(rng, pre, h2, false);
+        post = merge(rng, post, tail, true);
+    }
+    // DMQ batches: neighbouring DMQ submissions travel in one batch
+    let batches = |rng: &mut Rng, evs: Vec<Ev>| -> Vec<Ev> {
+        let mut out: Vec<Ev> = vec![];
+        for e in evs {
+            if let Ev::Sub { path: Path::Dmq, ent, sg, .. } = &e {
+                let join = match out.last() {
+                    Some(Ev::Batch(_)) => rng.chance(2, 3),
+                    Some(Ev::Sub { path: Path::Dmq, .. }) => rng.chance(1, 2),
+                    _ => false,
+                };
+                if join {
+                    match out.pop().unwrap() {
+                        Ev::Batch(mut items) => {
+                            items.push((*ent, sg.clone()));
+                            out.push(Ev::Batch(items));
+                        }
+                        Ev::Sub { ent: e0, sg: s0, .. } => out.push(Ev::Batch(vec![(e0, s0), (*ent, sg.clone())])),
+                        _ => unreachable!(),
+                    }
+                    continue;
+                }
+            }
+            out.push(e);
+        }
+        out
+    };
+    let pre = batches(rng, pre);
+    let post = batches(rng, post);
+    let lot_v: Vec<(Prov, u64, Vec<u64>)> = lot.values().cloned().collect();
+    CaseIn { pre, post, lot: lot_v, provs, kinds, second }
 }
 
 fn silence_stdout() {
@@ -793,107 +1171,190 @@ fn main() {
     let mut rng = Rng::new(args.seed ^ 0xC16);
     let mut sink = Sink::new(&args);
     let rt = tokio::runtime::Builder::new_multi_thread().worker_threads(4).enable_all().build().unwrap();
-    // worlds: (k, current registration, next registration)
-    let mut worlds: Vec<(u64, Vec<usize>, Vec<usize>)> = vec![
-        (4, vec![0, 1, 2], vec![1, 2]),
-        (7, vec![0, 1, 2, 3], vec![0, 2, 3]),
-        (7, vec![0, 1, 2, 3, 4], vec![0, 1, 2, 3, 4]),
-        (10, vec![0, 1, 2, 3, 4], vec![1, 3, 4]),
+    let r = |set: &[usize], gen: u8| -> Reg { (set.to_vec(), gen) };
+    // worlds: (k, chain of registrations): chain[0] is CURRENT at epoch 2, chain[1] NEXT at epoch 2 and
+    // CURRENT at epoch 3, ... ; the second component is the key generation (same party, other key)
+    let mut worlds: Vec<(u64, Vec<Reg>)> = vec![
+        // keys rotate every epoch, the set stays the same (what real signers do)
+        (7, vec![r(&[0, 1, 2, 3, 4], 0), r(&[0, 1, 2, 3, 4], 1), r(&[0, 1, 2, 3, 4], 2), r(&[0, 1, 2, 3, 4], 0)]),
+        // a party leaves, another one is only in the next registration; keys kept / rotated
+        (4, vec![r(&[0, 1, 2], 0), r(&[1, 2, 3], 0), r(&[0, 1, 2, 3], 1), r(&[0, 2, 3], 1)]),
+        (7, vec![r(&[0, 1, 2, 3], 0), r(&[0, 2, 3, 4], 1), r(&[0, 1, 2, 3, 4], 1), r(&[1, 2, 3, 4], 2)]),
+        (10, vec![r(&[0, 1, 2, 3, 4], 0), r(&[0, 1, 3, 4], 0), r(&[0, 1, 2, 3, 4], 2), r(&[0, 1, 2, 3, 4], 2)]),
     ];
     if args.thorough {
         worlds.extend(vec![
-            (4, vec![0, 1, 2, 3], vec![0, 1]),
-            (10, vec![0, 1, 2, 3], vec![1, 2, 3]),
-            (4, vec![0, 1, 2, 3, 4], vec![0, 4]),
-            (7, vec![0, 1, 2], vec![0, 1, 2]),
+            (4, vec![r(&[0, 1, 2, 3], 0), r(&[0, 1, 2], 1), r(&[0, 1, 2, 4], 1), r(&[0, 1, 2, 3, 4], 2), r(&[1, 2, 3, 4], 0)]),
+            (10, vec![r(&[0, 1, 2, 3, 4], 0), r(&[0, 1, 2, 3, 4], 0), r(&[0, 1, 2, 3, 4], 1), r(&[0, 1, 2, 3, 4], 1), r(&[0, 1, 2, 3, 4], 0)]),
+            (4, vec![r(&[0, 1, 2, 3, 4], 0), r(&[0, 3, 4], 2), r(&[0, 1, 3, 4], 2), r(&[0, 1, 2, 3], 0), r(&[0, 1, 2], 1)]),
+            (7, vec![r(&[0, 1, 2], 0), r(&[0, 1, 2, 3, 4], 1), r(&[0, 1, 2, 3, 4], 2), r(&[2, 3, 4], 2), r(&[1, 2, 3, 4], 0)]),
         ]);
     }
-    let per_world = if args.thorough { 260 } else { 45 };
+    // a world lives through `chain.len() - 1` epochs; every epoch but the first starts with a transition case
+    let per_epoch: u64 = if args.thorough { 65 } else { 15 };
     let mut fxs: HashMap<u64, Fx> = HashMap::new();
-    for (wi, (k, g, s)) in worlds.iter().enumerate() {
+    let mut first_id = 0u64;
+    for (wi, (k, chain)) in worlds.iter().enumerate() {
         let mut wr = rng.fork();
+        let n_epochs = chain.len() as u64 - 1;
+        let per_world = per_epoch * n_epochs;
         // does this world contain a wanted case?
-        let first_id = wi as u64 * per_world;
         if let Some(o) = args.only {
             if o < first_id || o >= first_id + per_world {
                 for _ in 0..per_world {
                     let _ = sink.wants();
                 }
+                first_id += per_world;
                 continue;
             }
         }
+        first_id += per_world;
         let fx = fxs.entry(*k).or_insert_with(|| Fx::new(*k));
-        let mut world = rt.block_on(World::new(fx, g.clone(), s.clone(), work.join(format!("w{}", wi))));
-        for _ in 0..per_world {
-            let mut cr = wr.fork();
-            let imm = world.next_imm;
-            world.next_imm += 1;
-            let wanted = sink.wants();
-            let Some(id) = wanted else { continue };
-            let pm = rt.block_on(world.message_for(imm));
-            let pm_other = rt.block_on(world.message_for(imm + 500_000));
-            let entity = SignedEntityType::CardanoDatabase(CardanoDbBeacon::new(world.epoch, imm));
-            let regs = Regs { cur: world.regs.cur.clone(), nxt: world.regs.nxt.clone(), cur_set: world.regs.cur_set.clone(), nxt_set: world.regs.nxt_set.clone() };
-            let ci = gen_case(&mut cr, fx, &regs, &pm, &pm_other, args.thorough);
-            let out = rt.block_on(run_case(&mut world, fx, &ci.evs, &ci.provs, &entity, &pm, &pm_other.to_message()));
-            let verdict = judge(&ci.evs, &out, &regs);
-            // model term
-            let evs_coq: Vec<String> = ci
-                .evs
-                .iter()
-                .map(|e| match e {
-                    Ev::Open => format!("Open {} {}", coq::n(ENT), coq::n(MSG)),
-                    Ev::Seal => format!("Seal {}", coq::n(ENT)),
-                    Ev::Sub { path, claimed, sg } => format!(
-                        "Sub {} {} {} {}",
-                        match path {
-                            Path::Http => "Http",
-                            Path::Direct => "Direct",
-                            Path::Dmq => "Dmq",
-                        },
-                        coq::n(ENT),
-                        coq::n(*claimed),
-                        sg.coq(fx, &regs)
-                    ),
-                })
-                .collect();
-            let lot_coq: Vec<String> = ci.lot.iter().map(|(s, st, w)| format!("({}, {}, {})", s, coq::n(*st), coq::list_n(w))).collect();
-            let model = format!(
-                "(let cur := {} in let nxt := {} in C16.Model.run {{| e_lot := {}; e_cur := cur; e_next := nxt; e_k := {} |}} {})",
-                coq_reg(&regs.cur),
-                coq_reg(&regs.nxt),
-                coq::list(&lot_coq),
-                coq::n(*k),
-                coq::list(&evs_coq)
-            );
-            let kind = if ci.kinds.is_empty() { "honest-only".to_string() } else { ci.kinds.iter().next().unwrap().to_string() };
-            let desc_evs: Vec<serde_json::Value> = ci
-                .evs
-                .iter()
-                .zip(&out.ev_out)
-                .map(|(e, o)| match e {
-                    Ev::Open => serde_json::json!({"open": true, "outcome": o}),
-                    Ev::Seal => serde_json::json!({"seal": true, "outcome": o}),
-                    Ev::Sub { path, claimed, sg } => serde_json::json!({"submit": sg.json(), "path": format!("{:?}", path), "claimed_message": claimed, "outcome": o}),
-                })
-                .collect();
-            let nontrivial = ci.evs.iter().zip(&out.ev_out).any(|(e, _)| matches!(e, Ev::Sub { sg, .. } if !sg.honest)) && !out.rows.is_empty();
-            let key = format!("{:x}", fnv(&format!("{:?}{:?}{}", regs.cur, regs.nxt, evs_coq.join(";"))));
-            sink.push(Case {
-                id,
-                kind,
-                desc: serde_json::json!({"k": k, "m": M, "phi_f": PHI_F, "current_registration_by_slot": regs.cur, "next_registration_by_slot": regs.nxt,
-                    "stakes": STAKES, "events": desc_evs, "all_kinds": ci.kinds.iter().collect::<Vec<_>>(),
-                    "stored_rows": out.rows.iter().map(|r| serde_json::json!({"label": r.0, "sigma": format!("{:?}", r.1), "slot": r.2, "indexes": r.3})).collect::<Vec<_>>(),
-                    "certificate_signers": out.certs}),
-                model: Some(model),
-                impl_obs: out.obs.clone(),
-                holds: Some(verdict.ok),
-                why: verdict.why,
-                known: verdict.known,
-                nontrivial,
-                key,
-            });
+        let mut world = rt.block_on(World::new(fx, chain.clone(), work.join(format!("w{}", wi))));
+        // Coq names of the registrations of this world
+        let names: Names = {
+            let mut v: Names = vec![];
+            for (i, reg) in chain.iter().enumerate() {
+                if !v.iter().any(|(r, _)| r == reg) {
+                    v.push((reg.clone(), format!("r{}", i)));
+                }
+            }
+            v
+        };
+        let lets: String = names.iter().map(|(reg, n)| format!("let {} := {} in ", n, coq_reg(&fx.slot_order(reg), reg.1))).collect();
+        let mut case_no = 0u64;
+        // a world whose epoch transition failed stops producing cases (the cases before it report why)
+        let mut dead = false;
+        for ep in 0..n_epochs {
+            let has_certificate = dead || rt.block_on(world.honest_round(fx));
+            for ci_no in 0..per_epoch {
+                if dead {
+                    let _ = sink.wants();
+                    continue;
+                }
+                let mut cr = wr.fork();
+                // the last case of an epoch (but the last epoch) is a transition case: it belongs to the NEXT epoch
+                let transition = ci_no == per_epoch - 1 && ep + 1 < n_epochs;
+                let imm = world.next_imm;
+                world.next_imm += 1;
+                let wanted = sink.wants();
+                // systematic coverage of the adversarial kinds: two per case in turn (thorough: one, more random ones)
+                let forced: Vec<u64> = if args.thorough { vec![case_no % N_KINDS] } else { vec![(case_no * 2) % N_KINDS, (case_no * 2 + 1) % N_KINDS] };
+                case_no += 1;
+                // no certificate in this epoch: the chain has a gap, the next epoch cannot be reached
+                if transition && !has_certificate {
+                    dead = true;
+                    continue;
+                }
+                let Some(id) = wanted else {
+                    if transition && !rt.block_on(world.advance(fx)) {
+                        dead = true;
+                    }
+                    continue;
+                };
+                let case_epoch = if transition { world.epoch + 1 } else { world.epoch };
+                let (entity, pm) = rt.block_on(world.message_for(fx, case_epoch, imm, false));
+                let (_, pm_other) = rt.block_on(world.message_for(fx, case_epoch, imm + 500_000, false));
+                let (entity2, pm2) = rt.block_on(world.message_for(fx, case_epoch, imm, true));
+                let regs1 = world.regs(fx);
+                // the registrations of the epoch the case's entity belongs to
+                let regs = if transition {
+                    let e = world.epoch as usize + 1;
+                    let (cur_reg, nxt_reg) = (chain[e - 2].clone(), chain[e - 1].clone());
+                    Regs { cur: fx.slot_order(&cur_reg), nxt: fx.slot_order(&nxt_reg), cur_reg, nxt_reg, prev_reg: Some(chain[e - 3].clone()) }
+                } else {
+                    regs1.clone()
+                };
+                let ci = gen_case(&mut cr, fx, &regs, &pm, &pm_other, &pm2, args.thorough, &forced, !transition);
+                let mut ctx = Ctx { ents: BTreeMap::new(), msgs: HashMap::new() };
+                ctx.ents.insert(ENT, (entity.clone(), pm.clone()));
+                ctx.msgs.insert(MSG, pm.to_message());
+                ctx.msgs.insert(MSG_OTHER, pm_other.to_message());
+                ctx.msgs.insert(MSG2, pm2.to_message());
+                if ci.second {
+                    ctx.ents.insert(ENT2, (entity2.clone(), pm2.clone()));
+                }
+                rt.block_on(world.clear_buffer());
+                let (evs, outs, rows, certs, impl_obs, model): (Vec<Ev>, Vec<u64>, Vec<(u64, Row)>, Vec<(u64, Vec<u64>)>, String, String);
+                let lot_coq: Vec<String> =
+                    ci.lot.iter().map(|(pr, st, w)| format!("({}, {}, {})", coq_prov(fx, &names, pr), coq::n(*st), coq::list_n(w))).collect();
+                let env = |fx: &mut Fx, rg: &Regs| {
+                    format!("{{| e_lot := lot; e_cur := {}; e_next := {}; e_k := {} |}}", reg_term(fx, &names, &rg.cur_reg), reg_term(fx, &names, &rg.nxt_reg), coq::n(*k))
+                };
+                let ev_obs = |o: &[u64]| coq::ol(&o.iter().map(|x| coq::on(*x)).collect::<Vec<_>>());
+                if transition {
+                    let s1 = rt.block_on(run_segment(&mut world, fx, &ci.pre, &ci.provs, &ctx, &regs1));
+                    if !rt.block_on(world.advance(fx)) {
+                        dead = true;
+                        continue;
+                    }
+                    let s2 = rt.block_on(run_segment(&mut world, fx, &ci.post, &ci.provs, &ctx, &regs));
+                    impl_obs = coq::ol(&[ev_obs(&s1.ev_out), s1.obs_state.clone(), ev_obs(&s2.ev_out), s2.obs_state.clone()]);
+                    let (e1, e2) = (env(fx, &regs1), env(fx, &regs));
+                    model = format!(
+                        "({}let lot := {} in C16.Model.run2 {} {} {} {})",
+                        lets,
+                        coq::list(&lot_coq),
+                        e1,
+                        coq::list(&coq_events(fx, &names, &ci.pre)),
+                        e2,
+                        coq::list(&coq_events(fx, &names, &ci.post))
+                    );
+                    evs = ci.pre.iter().chain(ci.post.iter()).cloned().collect();
+                    outs = s1.ev_out.iter().chain(s2.ev_out.iter()).copied().collect();
+                    rows = s2.rows;
+                    certs = s2.certs;
+                } else {
+                    evs = ci.pre.iter().chain(ci.post.iter()).cloned().collect();
+                    let s = rt.block_on(run_segment(&mut world, fx, &evs, &ci.provs, &ctx, &regs));
+                    impl_obs = coq::ol(&[ev_obs(&s.ev_out), s.obs_state.clone()]);
+                    let e1 = env(fx, &regs);
+                    model = format!("({}let lot := {} in C16.Model.run {} {})", lets, coq::list(&lot_coq), e1, coq::list(&coq_events(fx, &names, &evs)));
+                    outs = s.ev_out;
+                    rows = s.rows;
+                    certs = s.certs;
+                }
+                let fulls: HashMap<Prov, Vec<u64>> = ci.lot.iter().map(|(p, _, w)| (p.clone(), w.clone())).collect();
+                let ents: Vec<u64> = ctx.ents.keys().copied().collect();
+                let verdict = judge(&evs, &outs, &rows, &certs, &regs, &fulls, &ents);
+                let first_kind = ci.kinds.first().map(|s| s.to_string()).unwrap_or_else(|| "honest-only".to_string());
+                let kind = if transition { format!("epoch change, then: {}", first_kind) } else { first_kind };
+                let desc_evs: Vec<serde_json::Value> = evs
+                    .iter()
+                    .zip(&outs)
+                    .map(|(e, o)| match e {
+                        Ev::Open(ent) => serde_json::json!({"open": ent, "outcome": o}),
+                        Ev::Seal(ent) => serde_json::json!({"seal": ent, "outcome": o}),
+                        Ev::Batch(items) => serde_json::json!({"dmq_batch": items.iter().map(|(ent, sg)| serde_json::json!({"entity": ent, "submit": sg.json()})).collect::<Vec<_>>(), "outcome": o}),
+                        Ev::Sub { path, ent, claimed, sg } => serde_json::json!({"submit": sg.json(), "entity": ent, "path": format!("{:?}", path), "claimed_message": claimed, "outcome": o}),
+                    })
+                    .collect();
+                let any_adv = evs.iter().any(|e| match e {
+                    Ev::Sub { sg, .. } => !sg.honest,
+                    Ev::Batch(items) => items.iter().any(|(_, sg)| !sg.honest),
+                    _ => false,
+                });
+                let nontrivial = any_adv && !rows.is_empty();
+                let key = format!("{:x}", fnv(&format!("{:?}{:?}{}{}", regs.cur_reg, regs.nxt_reg, transition, coq_events(fx, &names, &evs).join(";"))));
+                sink.push(Case {
+                    id,
+                    kind,
+                    desc: serde_json::json!({"k": k, "m": M, "phi_f": PHI_F, "epoch": case_epoch,
+                        "current_registration_by_slot": regs.cur, "current_key_generation": regs.cur_reg.1,
+                        "next_registration_by_slot": regs.nxt, "next_key_generation": regs.nxt_reg.1,
+                        "epoch_change_after_event": if transition { Some(ci.pre.len()) } else { None },
+                        "entities": ents, "stakes": STAKES, "events": desc_evs, "all_kinds": ci.kinds,
+                        "stored_rows": rows.iter().map(|(e, r)| serde_json::json!({"entity": e, "label": r.0, "sigma": format!("{:?}", r.1), "slot": r.2, "indexes": r.3})).collect::<Vec<_>>(),
+                        "certificate_signers": certs}),
+                    model: Some(model),
+                    impl_obs,
+                    holds: Some(verdict.ok),
+                    why: verdict.why,
+                    known: verdict.known,
+                    nontrivial,
+                    key,
+                });
+            }
         }
         drop(world);
     }
